@@ -734,6 +734,23 @@ def intrinsic(it, name, args, kwargs):
             raise EngineError('abstract_result: no contract')
         b2 = bind_args(f, list(args[1:]), {})
         return _abstract_value(it, c2, f, b2, f'spec_{f.__name__}')
+    if name in ('text_len', 'char_code', 'is_suffix_view'):
+        from .ext import SCharSeq
+        from .strings import XStr
+        if name == 'text_len':
+            x = args[0]
+            return x.length() if isinstance(x, (SCharSeq, XStr)) else len(x)
+        if name == 'char_code':
+            x, i = args
+            if isinstance(x, SCharSeq):
+                return mk_int(z3.Select(x.arr, T(x.off) + T(i)))
+            return ord(x[i]) if isinstance(i, int) and 0 <= i < len(x) else -1
+        a, b = args
+        if isinstance(a, SCharSeq) and isinstance(b, SCharSeq):
+            same_arr = True if a.arr.eq(b.arr) else mk_bool(a.arr == b.arr)
+            return b_and(same_arr, mk_bool(T(a.off) >= T(b.off)),
+                         mk_bool(T(a.off) + T(a.n) == T(b.off) + T(b.n)))
+        raise EngineError('is_suffix_view of non-symbolic texts')
     if name == 'starts_with':
         from .strings import XStr
         x, lit = args
